@@ -235,10 +235,13 @@ reg("C11", p_kinds.c11, {"R-WHO": 2, "R-ORDER": 4, "R-TABLE": 5}, ["r_order"],
     rule="allocate_file reaches ftruncate and no allocating/zero-writing call; the destination descriptor comes from a "
          "truncating File::create and is sized from the source length before Ok(handle); parfile: whole-file copy only if "
          "!probably_sparse, segment walk lengths derive from next_sparse_segments; parblock: a whole-file range is queued "
-         "only if !probably_sparse or no extent map, extent ranges derive from map_extents/merge_extents.",
-    technique="region reachability + control dependence on the sparseness tests + provenance of range arguments",
-    decided="holes are never written: pre-sizing is a pure truncate, a previous destination is discarded, and sparse sources "
-            "take the data-segment paths in both drivers.",
+         "only if !probably_sparse or no extent map, extent ranges derive from map_extents/merge_extents; R-RANGE: each "
+         "block job cut from a range satisfies off >= range.start and off + bytes <= range.end (symbolic evaluation of "
+         "the splitting arithmetic; undecided where it does not resolve).",
+    technique="region reachability + control dependence on the sparseness tests + provenance of range arguments + "
+              "abstract interpretation of the block-splitting arithmetic in a polynomial domain",
+    decided="holes are never written: pre-sizing is a pure truncate, a previous destination is discarded, sparse sources "
+            "take the data-segment paths in both drivers, and no block job reaches outside the data range it was cut from.",
     not_decided="allocated size (a run-time quantity of the filesystem); the sparseness heuristic's threshold; extent paging.")
 
 reg("C12", p_kinds.c12, {"R-ORDER": 3, "R-TABLE": 3, "R-ERR": 60, "R-THREAD": 4}, ["r_order", "r_err"],
@@ -295,12 +298,13 @@ reg("C01", p_copy.c01, {"R-SHORT": 9, "R-TABLE": 4, "R-ROLE": 20}, ["r_short", "
          "source's metadata dominates every Ok(handle), CopyHandle is only built there; (b) R-SHORT over every call chain from "
          "the drivers to copy_file_range/pread/pwrite/read/write: each partial count is accumulated in a completing loop, "
          "compared-and-failed, or forwarded; (c) kernel copier, user-space copier and clone are reachable from both Copy arms; "
-         "roles of all data-moving sinks; block jobs use explicit offsets.",
-    technique="short-count dataflow (partial/total function summaries) + dominance of truncate-then-size + role inference",
+         "roles of all data-moving sinks; block jobs use explicit offsets and (R-RANGE) stay inside the range they were cut from.",
+    technique="short-count dataflow (partial/total function summaries) + dominance of truncate-then-size + role inference + "
+              "abstract interpretation of the block-splitting arithmetic in a polynomial domain",
     decided="nothing of a previous destination survives (truncate + size from the source before any data call); no byte "
             "count returned by the kernel is dropped on a success path; data moves from the source descriptor to the "
             "destination descriptor at explicit offsets in block jobs.",
-    not_decided="the partition arithmetic of queue_file_range (block count, min, offsets covering [start,end) exactly), the "
+    not_decided="that the block jobs *cover* their range (a summation argument; containment of each job is decided), the "
                 "sparse walk's coverage, and byte equality itself: numeric/relational over run-time values.")
 
 reg("C02", p_copy.c02, {"R-ROLE": 20, "R-TABLE": 9, "R-ERR": 8, "R-SIB": 9}, ["r_role", "r_err"],
